@@ -31,6 +31,13 @@ def libc_strtod(text):
     return struct.unpack("<Q", struct.pack("<d", d))[0], er
 
 
+def dbl_range_error(bits, erange):
+    """the documented rule for doubles (57534b2): a number that does not fit is one strtod answers with ERANGE AND +-0
+    (underflow) or +-HUGE_VAL (overflow); a subnormal result (glibc raises ERANGE for it too) is representable"""
+    mag = bits & ((1 << 63) - 1)
+    return bool(erange) and (mag == 0 or mag == 0x7FF0000000000000)
+
+
 def libc_fmt16(bits):
     buf = ctypes.create_string_buffer(64)
     d = struct.unpack("<d", struct.pack("<Q", bits))[0]
@@ -199,7 +206,7 @@ def ref_parse(items, kvs, pre, argv):
             post[it.var] = v
         elif it.ty == "dbl":
             bits, er = libc_strtod(arg)
-            if er:
+            if dbl_range_error(bits, er):
                 return -1, None, None, True
             post[it.var] = ("d", bits)
         elif it.ty == "str":
@@ -257,6 +264,10 @@ INT_TEXTS = [b"0", b"7", b"-1", b"2147483647", b"-2147483648", b"2147483648", b"
 SIZE_TEXTS = [b"0", b"1", b"4096", b"4294967295", b"4294967296", b"9223372036854775807", b"9223372036854775808",
               b"18446744073709551615", b"18446744073709551616", b"-1", b"-0", b"0x10", b"010", b" 12", b"12kb", b"", b"x"]
 DBL_TEXTS = [b"0", b"1.5", b"-2.5e10", b"1e308", b"1e309", b"1e-320", b"1e-400", b"inf", b"-inf", b"nan", b"0x1p3", b"abc", b"1.5xyz",
+             # 57534b2: subnormal results are accepted (DBL_MIN's 16-digit text, the smallest subnormal, negative ones),
+             # underflow to zero and overflow are errors
+             b"2.225073858507201e-308", b"-2.225073858507201e-308", b"4.9e-324", b"-4.9e-324", b"4.940656458412465e-324", b"1e-310",
+             b"1e400", b"-1e400", b"-1e-400", b"2.4e-324", b"1.7976931348623157e308", b"1.7976931348623159e308", b"-0.0", b"0x1p-1074", b"0x1p-1075",
              b"3.141592653589793", b"0.1", b"1e22", b"123456789012345678", b"2.2250738585072014e-308", b"  7.25", b""]
 BOOL_TEXTS = [b"0", b"1", b"t", b"T", b"f", b"F", b"y", b"Yes", b"n", b"No", b"true", b"false", b"x", b"2", b"", b"maybe", b"10", b"01"]
 STR_SAFE = [b"hello", b"a b c", b"path/to/file.txt", b"x=y", b"a=b=c", b"[x]", b"100%", b"\xc3\xa4\xff", b"a\"b", b"it's", b"q\"", b"a\\b", b"-dash", b"--", b"=", b"k = v"]
@@ -377,7 +388,8 @@ class Decl:
             val = rng.choice([0, 1, 4096, (1 << 32), LONG_MAX, 77])
             ini = "i" + hz(val)
         elif ty == "dbl":
-            val = ("d", struct.unpack("<Q", struct.pack("<d", rng.choice([0.0, 1.5, -2.25, 1e300, 0.1, 3.141592653589793])))[0])
+            val = ("d", struct.unpack("<Q", struct.pack("<d", rng.choice([0.0, 1.5, -2.25, 1e300, 0.1, 3.141592653589793, 2.2250738585072014e-308,
+                                                                          5e-324, -2.2250738585072009e-308, 1e-310])))[0])
             ini = "d%x" % val[1]
         elif ty == "str":
             val = None if rng.random() < 0.4 else rand_str(rng, True)
@@ -452,7 +464,7 @@ def value_text(rng, it, decl, valid):
     if ty == "dbl":
         for _ in range(50):
             t = rng.choice(DBL_TEXTS) if rng.random() < 0.7 else repr(rng.uniform(-1e6, 1e6) * 10.0 ** rng.randrange(-30, 30)).encode()
-            if not valid or not libc_strtod(t)[1]:
+            if not valid or not dbl_range_error(*libc_strtod(t)):
                 return t
         return b"1"
     if ty == "bool":
@@ -599,7 +611,7 @@ def gen_ini(rng, items, decl, valid):
                 t = b"5"
             if ty == "dbl":
                 bits, er = libc_strtod(t)
-                v = None if er else ("d", bits)
+                v = None if dbl_range_error(bits, er) else ("d", bits)
             else:
                 x, er = ref_strtol(t)
                 v = None if (er or (ty == "int" and not INT_MIN <= x <= INT_MAX) or (ty == "size" and x < 0)) else x
@@ -1018,7 +1030,17 @@ def aimed_histories(rng, hid0):
         h.parse(0, [b"prog"]); h.op("seti 4 %s" % hz(v)); roundtrip(h, rng, b"bs.ini"); h.end()
     for t in DBL_TEXTS:
         h = H(); h.tags.add("aimed-double")
-        h.parse(0, [b"prog", b"--dbl=" + t]); h.parse(0, [b"prog"]); roundtrip(h, rng, b"bd.ini"); h.end()
+        h.parse(0, [b"prog", b"--dbl=" + t]); h.parse(0, [b"prog", b"-d", t or b"x"])
+        if t.strip(SPACE) != b"":
+            bits, er = libc_strtod(t)
+            h.op("file %s %s" % (hx(b"d.ini"), hx(b"[Options]\ndbl = " + t + b"\n")))
+            h.op("load 0 %s" % hx(b"d.ini"), ("load", 0, "error" if dbl_range_error(bits, er) else {7: ("d", bits)}))
+        h.parse(0, [b"prog"]); roundtrip(h, rng, b"bd.ini"); h.end()
+    # doubles that sit in the variable when it is saved: DBL_MIN (its 16-digit text is a subnormal), subnormals of either sign
+    for v in (2.2250738585072014e-308, -2.2250738585072014e-308, 5e-324, -5e-324, 2.2250738585072009e-308, 1e-310, 1e-320, 1.0, 1e308,
+              1.7976931348623157e308, -1.7976931348623157e308, 1.7976931348623155e308, 1.797693134862315e308):      # the first three: F-C17m
+        h = H(); h.tags.add("aimed-double")
+        h.parse(0, [b"prog"]); h.op("setd 7 %x" % struct.unpack("<Q", struct.pack("<d", v))[0]); roundtrip(h, rng, b"bs.ini"); h.end()
     # booleans and key-value choices
     for t in BOOL_TEXTS:
         h = H(); h.tags.add("aimed-bool")
@@ -1309,11 +1331,16 @@ def oracle(ctx, h, impl):
                         t = saved.get(saved_key(it))
                         if t is not None and decl.kvs[it.kv].get(t) != vars1.get(it.var):
                             stale = True
-                tiny = any(it.ty == "dbl" and libc_strtod(libc_fmt16(vars1[it.var][1]))[1] for it in items)
+                # F-C17m: a finite double whose "%.16g" text lies above DBL_MAX (DBL_MAX prints as 1.797693134862316e+308): the saved
+                # text overflows when it is read, the load fails as a whole
+                def overflows(bits):
+                    b2, er = libc_strtod(libc_fmt16(bits))
+                    return (bits & ((1 << 63) - 1)) < 0x7FF0000000000000 and er and (b2 & ((1 << 63) - 1)) == 0x7FF0000000000000
+                huge = any(it.ty == "dbl" and overflows(vars1[it.var][1]) for it in items)
                 if unsafe:
                     key = "ini-unsafe-string:" + unsafe
-                elif tiny and r2 != 0:
-                    key = "double-subnormal:reload-raises-ERANGE"
+                elif huge and r2 != 0:
+                    key = "double-overflow:16-digit-text-exceeds-DBL_MAX"
                 elif stale:
                     key = "keyvalue-stale-copy:saved-text-differs-from-variable"
                 else:
